@@ -383,7 +383,7 @@ func cmdCheck(args []string) int {
 					exit = 1
 				} else {
 					unrepro++
-					fmt.Printf("UNREPRODUCED model harness=%s label=%s kind=%s native=%s model=%v\n", j.harness, j.viol.Label, j.viol.Kind, j.outcome, j.viol.Model)
+					fmt.Printf("UNREPRODUCED model harness=%s label=%s kind=%s native=%s msg=%q model=%v\n", j.harness, j.viol.Label, j.viol.Kind, j.outcome, firstLines(j.viol.Msg, 3), j.viol.Model)
 				}
 			}
 			if j.val != nil {
